@@ -1,6 +1,6 @@
 """what MANIFEST.json claims per property (tools/mkmanifest.py turns this into the manifest)"""
 
-FIX_COMMITS = ['0369c7c', 'e5963ae', '7c0fb30', '7b59f02', '74366c8', 'b68f84c', 'a968b66', 'a15d91b', '2992cec', '3ad884d', '2fb3194', 'c94fb16']
+FIX_COMMITS = ['0369c7c', 'e5963ae', '7c0fb30', '7b59f02', '74366c8', 'b68f84c', 'a968b66', 'a15d91b', '2992cec', '3ad884d', '2fb3194', 'c94fb16', '8f1b2fe']
 
 _NOTE = ('bounded: holds for every value of the symbolic inputs inside the boxes and sizes '
          'listed in the evidence file, nothing is claimed outside; trusted: CPython, z3, the '
@@ -18,7 +18,9 @@ CLAIMS = {
                 'outcomes that are always explored. Families many / many_sd run 6-7 sleepers '
                 'through every weak ordering of the pending dates on both wait queue backends; '
                 'float_single / float_pair redo the exact-date obligations on IEEE doubles (z3 '
-                'floating point theory).',
+                'floating point theory). Families reuse / reuse_runs use one stored date '
+                'notification object in successive phases of one simulation and in two consecutive '
+                'simulations with symbolic start times (found defect F13).',
         'note': _NOTE,
     },
     'C04': {
